@@ -214,6 +214,20 @@ def run_direct(events):
     return list(cp.feed_generator(tp.feed_generator(iter(events)))), cp
 
 
+def run_in_pieces(events, rng):
+    """The same stream handed to ONE trace parser and ONE callstacks parser in several feed_generator() calls (a live
+    capture decoded as it arrives: piece by piece, some pieces a single record, some empty)."""
+    from pykdebugparser.callstacks_parser import CallstacksParser
+    tp = ev.new_parser()
+    cp = CallstacksParser([], [])
+    cuts = sorted(rng.randrange(len(events) + 1) for _ in range(rng.choice((1, 2, 5, len(events) // 2 + 1))))
+    out, prev = [], 0
+    for c in cuts + [len(events)]:
+        out += list(cp.feed_generator(tp.feed_generator(iter(events[prev:c]))))
+        prev = c
+    return out, len(cuts) + 1
+
+
 def one_history(res, rng, ctx):
     from pykdebugparser.pykdebugparser import PyKdebugParser
     merged, samples = gen_history(rng, ctx)
@@ -230,6 +244,15 @@ def one_history(res, rng, ctx):
         return
     if any(not s['is_stack'] for s in samples):
         res.count('histories_with_non_stack_samples')
+    try:
+        got_p, n_pieces = run_in_pieces(events, rng)
+    except Exception as x:
+        res.violation(f'c15-raises-{core.exc_name(x)}', f'stream fed in pieces: {x!r} at {core.short_tb(x)}', case)
+        return
+    if not check_callstacks(res, got_p, merged, events, samples, f'one pair of parser objects fed the stream in {n_pieces} '
+                            'feed_generator() calls', case):
+        return
+    res.count('histories_fed_in_pieces')
     # through the front-end, twice on one parser object
     data = wire.v2_file(gen.threadmap_for(events), 8, gen.events_to_records(events))
     p = PyKdebugParser()
@@ -347,6 +370,7 @@ def run(ctx):
     res.require('permutations_compared', 3)
     res.require('histories_with_non_stack_samples', 1)
     res.require('front_end_runs', 10)
+    res.require('histories_fed_in_pieces', 50)
     res.require('histories_under_a_table_with_names_under_several_ids', 20)
     res.require('concurrent_front_end_pairs', 5)
     if monitors.HAVE_ICONTRACT:
